@@ -740,6 +740,9 @@ func run(c *fw.Ctx, idx int) {
 			w.trace = append(w.trace, fmt.Sprintf("add present p%d at p%d", target, at))
 			_, err := w.members[at].peer.Node.Cluster.PeerAdd(ctx, w.id(target))
 			c.Eval(fmt.Sprintf("add-present/n%d/err=%v", len(in), err != nil))
+			if err != nil {
+				w.fail("C17/add-present/refused", "adding a peer that is already a member must be a harmless no-op, it failed: "+err.Error(), nil)
+			}
 			if ok, views := w.agree(ctx, w.wantPeerset()); !ok {
 				w.fail("C17/add-present/peerset-changed", "adding a present peer changed the peerset", views)
 			}
@@ -752,6 +755,9 @@ func run(c *fw.Ctx, idx int) {
 			w.trace = append(w.trace, fmt.Sprintf("remove absent peer at p%d", at))
 			err := w.members[at].peer.Node.Cluster.PeerRemove(ctx, absent)
 			c.Eval(fmt.Sprintf("remove-absent/n%d/err=%v", len(in), err != nil))
+			if err != nil {
+				w.fail("C17/remove-absent/refused", fmt.Sprintf("removing a peer that is not a member must be a harmless no-op, on a cluster of %d it failed: %v", len(in), err), nil)
+			}
 			if ok, views := w.agree(ctx, w.wantPeerset()); !ok {
 				w.fail("C17/remove-absent/peerset-changed", "removing an absent peer changed the peerset", views)
 			}
